@@ -39,6 +39,7 @@ import (
 	"os"
 	"os/exec"
 	"path/filepath"
+	"runtime"
 	"sort"
 	"strconv"
 	"strings"
@@ -145,7 +146,7 @@ type c08Op struct {
 	K     string     `json:"k"` // "write" | "run"
 	DS    string     `json:"ds,omitempty"`
 	Ents  []*kit.Ent `json:"ents,omitempty"`
-	Fault string     `json:"fault,omitempty"` // run: "" | "sinkerr" | "kill"
+	Fault string     `json:"fault,omitempty"` // run: "" | "sinkerr" | "storeerr" | "kill"
 	At    int        `json:"at,omitempty"`    // 1-based index of the sink batch of this run
 }
 
@@ -443,6 +444,21 @@ func c08Run(h *vjHub, j *job, cfg c08Cfg, op c08Op, kind string, step int) *c08O
 			}
 			return nil
 		})
+	case "storeerr":
+		// the sink's own write fails (a commit the storage engine refuses): the error comes out of
+		// Dataset.StoreEntities, inside the real DatasetSink, not from in front of it
+		nth := 0
+		verifhook.SetFault("store.commit", func(int) error {
+			if !c08InSink() {
+				return nil
+			}
+			nth++
+			if nth == op.At {
+				hit = true
+				return fmt.Errorf("verif: injected storage failure in the sink's write %d", op.At)
+			}
+			return nil
+		})
 	case "kill":
 		verifhook.SetFault("job.sink", func(n int) error {
 			if n-base == op.At {
@@ -454,6 +470,7 @@ func c08Run(h *vjHub, j *job, cfg c08Cfg, op c08Op, kind string, step int) *c08O
 	}
 	res, p := h.runJob(j)
 	verifhook.SetFault("job.sink", nil)
+	verifhook.SetFault("store.commit", nil)
 	o := c08Observe(h, cfg, kind, step)
 	o.Batches = verifhook.Hits()["fault:job.sink"] - base
 	o.FaultHit = hit
@@ -462,6 +479,21 @@ func c08Run(h *vjHub, j *job, cfg c08Cfg, op c08Op, kind string, step int) *c08O
 		o.Panic = fmt.Sprint(p)
 	}
 	return o
+}
+
+// c08InSink: the calling goroutine is inside datasetSink.processEntities.
+func c08InSink() bool {
+	pcs := make([]uintptr, 48)
+	frames := runtime.CallersFrames(pcs[:runtime.Callers(2, pcs)])
+	for {
+		fr, more := frames.Next()
+		if strings.HasSuffix(fr.Function, "(*datasetSink).processEntities") {
+			return true
+		}
+		if !more {
+			return false
+		}
+	}
 }
 
 // c08Verdict applies the oracles to the observation of one run and, after a
@@ -647,7 +679,7 @@ func TestVerif_C08(t *testing.T) {
 					nb += (pending + cfg.Batch - 1) / cfg.Batch
 				}
 				if nb > 0 {
-					op.Fault = rapid.SampledFrom([]string{"", "", "sinkerr", "kill"}).Draw(t, "fault")
+					op.Fault = rapid.SampledFrom([]string{"", "", "sinkerr", "storeerr", "kill"}).Draw(t, "fault")
 					if op.Fault != "" {
 						op.At = rapid.IntRange(1, nb+1).Draw(t, "at")
 					}
